@@ -16,7 +16,7 @@ pub struct Worker {
 
 /// After this many hangs the rest of a run is not executed (the verdict is clear and every
 /// further hang costs a full watchdog period).
-pub const MAX_HANGS: u64 = 8;
+pub const MAX_HANGS: u64 = 5;
 
 fn spawn() -> (Child, ChildStdin, Receiver<String>) {
     let exe = std::env::current_exe().unwrap();
@@ -46,6 +46,15 @@ fn spawn() -> (Child, ChildStdin, Receiver<String>) {
     (child, stdin, rx)
 }
 
+/// Whole daemon histories take longer than component ops.
+fn timeout_for(line: &str, base: Duration) -> Duration {
+    if line.starts_with("sim") || line.starts_with("backoff") {
+        Duration::from_secs(90)
+    } else {
+        base
+    }
+}
+
 impl Worker {
     pub fn new() -> Self {
         let (child, stdin, rx) = spawn();
@@ -64,6 +73,7 @@ impl Worker {
 
     /// Executes one op line; `hang` after `timeout`, `abort` if the worker died.
     pub fn exec(&mut self, line: &str, timeout: Duration) -> String {
+        let timeout = timeout_for(line, timeout);
         if writeln!(self.stdin, "{}", line).and_then(|_| self.stdin.flush()).is_err() {
             self.restart();
             return "abort".to_string();
@@ -112,7 +122,7 @@ impl Worker {
             }
             let mut k = i;
             while k < end {
-                match self.rx.recv_timeout(timeout) {
+                match self.rx.recv_timeout(timeout_for(&lines[k], timeout)) {
                     Ok(o) => {
                         sink(&lines[k], o);
                         k += 1;
